@@ -4,9 +4,11 @@ shallow Gallina over the combinators of HV.Prelude.Py.
 
 Usage:  py2coq.py <src-dir (…/src/hpack)> <out-dir (…/coq/Gen)>
 
-Writes Data.v (module- and class-level constants, evaluated from their defining
-expressions), Int.v, Table.v, Huff.v (function bodies) and status.json (per
-definition: "translated" or "unsupported: <construct at line>").  Anything
+Writes GData.v (module- and class-level constants, evaluated from their defining
+expressions), GInt.v, GTable.v, GHuff.v (function bodies), GDecoder.v, GEncoder.v
+(_unicode_if_needed and the methods of hpack.Decoder / hpack.Encoder except
+Encoder.encode and the __init__s, whose arguments are dynamically typed) and
+status.json (per definition: "translated" or "unsupported: <construct at line>").  Anything
 outside the supported subset makes *that definition* unsupported; nothing is
 guessed.  Docstrings, comments, annotations (beyond the types they give),
 ``log.*`` calls and exception messages are dropped, except that integer fields
@@ -16,6 +18,15 @@ Scheme (DESIGN.md 5.1): statement lists in continuation-passing style; locals
 rebound functionally; a loop's state is the tuple of variables assigned in its
 body that exist before it (plus ``self`` for a mutating method); every exit of
 a loop carries that state; ``self`` is a record threaded like a variable.
+
+Objects held by an object (``self.header_table``): the field is a nested record;
+a mutating call on it returns its new state, which is stored back into ``self``
+also when the call raised (``nbind`` of Prelude/PyExtra.v); a property is its
+getter / setter; an attribute assigned once in ``__init__`` from module constants
+(``self.huffman_coder``) is that constant record.  Header values (hpack.struct)
+are ``Decoder.header`` = (class, name, value) of Model/Decoder.v -- the only thing
+the generated files take from the hand-written model (the type, so that the
+bridge lemmas are plain equalities).
 """
 import ast
 import json
@@ -32,7 +43,7 @@ def bad(node, why=""):
 
 
 EXN = {"ValueError", "IndexError", "HPACKDecodingError", "InvalidTableIndex",
-       "OversizedHeaderListError", "InvalidTableSizeError", "TypeError"}
+       "OversizedHeaderListError", "InvalidTableSizeError", "TypeError", "UnicodeDecodeError"}
 
 T_PAIR = ("tuple", ["bytes", "bytes"])
 
@@ -43,7 +54,22 @@ CLASSES = {
                               "dynamic_entries": ("entries", ("list", T_PAIR))}),
     "HuffmanEncoder": ("hcoder", {"huffman_code_list": ("hc_codes", ("list", "int")),
                                   "huffman_code_list_lengths": ("hc_lens", ("list", "int"))}),
+    # an attribute of type ("obj", C) holds an instance of class C (a nested record)
+    "Decoder": ("decoder", {"header_table": ("d_tab", ("obj", "HeaderTable")),
+                            "max_header_list_size": ("d_max_list", "int"),
+                            "max_allowed_table_size": ("d_max_allowed", "int")}),
+    "Encoder": ("encoder", {"header_table": ("e_tab", ("obj", "HeaderTable")),
+                            "table_size_changes": ("e_changes", ("list", "int"))}),
 }
+# attributes that hold an object built once in __init__ from module constants and never assigned
+# again (checked against the source by const_attr_text): (class, attr) -> class of the object
+CONST_ATTRS = {("Encoder", "huffman_coder"): "HuffmanEncoder"}
+# header values (hpack.struct): class -> constructor of HV.Model.Decoder.hclass
+HEADER_CLASSES = {"HeaderTuple": "Decoder.HPlain", "NeverIndexedHeaderTuple": "Decoder.HNever"}
+HEADER_ANNS = {"HeaderTuple", "NeverIndexedHeaderTuple", "HeaderWeaklyTyped", "Header"}
+# Python names that are not usable as Coq identifiers are suffixed with "_"
+RESERVED = {"match", "with", "end", "fun", "let", "in", "if", "then", "else", "return", "as", "at", "fix",
+            "cofix", "forall", "exists", "Type", "Prop", "Set", "struct", "where", "for", "using", "mod"}
 # class-level constants: (class, attr) -> (coq name, type)
 T_MAPPING = ("dict", "bytes", ("tuple", ["int", ("dict", "bytes", "int")]))
 CLASS_CONSTS = {("HeaderTable", "STATIC_TABLE_LENGTH"): ("STATIC_TABLE_LENGTH", "int"),
@@ -53,7 +79,8 @@ CLASS_CONSTS = {("HeaderTable", "STATIC_TABLE_LENGTH"): ("STATIC_TABLE_LENGTH", 
 # loop fuel: (function, nth while loop) -> Coq nat expression over the variables in scope
 FUEL = {"encode_integer": "S (Z.to_nat (Z.log2_up integer))",
         "decode_integer": "length data",
-        "_shrink": "S (length self.(entries))"}
+        "_shrink": "S (length self.(entries))",
+        "decode": "S (length data)"}
 
 
 def cty(t):
@@ -67,6 +94,12 @@ def cty(t):
         return "unit"
     if t == "hex":
         return "hexstr"
+    if t == "header":
+        return "Decoder.header"
+    if t[0] == "obj":
+        return CLASSES[t[1]][0]
+    if t[0] == "opt" and t[1] is None:
+        raise Unsupported("a variable that is only ever None")
     if t[0] == "tuple":
         return "(" + " * ".join(cty(x) for x in t[1]) + ")"
     if t[0] == "list":
@@ -78,8 +111,8 @@ def cty(t):
     raise Unsupported(f"type {t}")
 
 
-def ann(a):
-    """type of an annotation"""
+def ann(a, ret=False):
+    """type of an annotation (ret: in return position, where Iterable[T] is accepted for a list)"""
     if a is None:
         raise Unsupported("missing annotation")
     if isinstance(a, ast.Constant) and a.value is None:
@@ -90,6 +123,8 @@ def ann(a):
         m = {"int": "int", "bytes": "bytes", "bool": "bool", "bytearray": "bytes", "None": "none"}
         if a.id in m:
             return m[a.id]
+        if a.id in HEADER_ANNS:
+            return "header"
     if isinstance(a, ast.BinOp) and isinstance(a.op, ast.BitOr):
         # unions: `bytes | bytearray | None` is a buffer (callers never pass None here)
         parts = []
@@ -108,6 +143,8 @@ def ann(a):
         if a.value.id == "Optional":
             return ("opt", ann(a.slice))
         if a.value.id == "list":
+            return ("list", ann(a.slice))
+        if a.value.id == "Iterable" and ret:
             return ("list", ann(a.slice))
     raise Unsupported("annotation " + ast.dump(a))
 
@@ -213,10 +250,37 @@ def val_type(v):
 
 # ------------------------------------------------------------------ functions (tiers B, C)
 
+class Meth:
+    """signature of a translated method / property accessor: Coq name, does it mutate self, parameter
+    names and types (without self), result type, `total` (a plain value, not an outcome), defaults
+    (parameter -> constant AST), `ok` (its translation succeeded, so that it can be called)"""
+
+    def __init__(self, cname, rw, ptys, rty, pnames=None, total=False, defaults=None, ok=True):
+        self.cname, self.rw, self.ptys, self.rty = cname, rw, ptys, rty
+        self.pnames = pnames if pnames is not None else [None] * len(ptys)
+        self.total, self.defaults, self.ok = total, defaults or {}, ok
+
+    def __iter__(self):   # (cname, rw, ptys, rty), the original tuple form
+        return iter((self.cname, self.rw, self.ptys, self.rty))
+
+
+class ClsInfo:
+    """what is known of a class when its instances are used as nested objects:
+    methods name -> Meth; getters property -> Meth or ("field", record field, type); setters property -> Meth;
+    const_attrs attribute -> (class, Coq text of the constant object)"""
+
+    def __init__(self):
+        self.methods, self.getters, self.setters, self.const_attrs = {}, {}, {}, {}
+
+
 class Fn:
-    def __init__(self, name, cls, rw, params, ret_type, consts, methods, funs):
+    def __init__(self, name, cls, rw, params, ret_type, consts, methods, funs, classes=None, fd=None,
+                 bytearray_funs=()):
         self.name, self.cls, self.rw, self.params, self.ret_type = name, cls, rw, params, ret_type
         self.consts, self.methods, self.funs = consts, methods, funs
+        self.classes = classes or {}
+        self.fd = fd
+        self.bytearray_funs = set(bytearray_funs)
         self.fresh = 0
         self.nloops = 0
 
@@ -240,25 +304,122 @@ class Tr:
         self.loop = []      # stack of loop-state patterns (text)
         self.loopvars = []
         self.ret_vars = set()
+        self.unify_ok = 0   # > 0 inside the arms of an If that joins (None gets its type at the join)
+        self.pure = 0       # > 0 inside a block of a mutating method that is translated as a plain outcome
+
+    def rw(self):
+        """is the answer type of the code being emitted `outcome R * state`?"""
+        return self.fn.rw and not self.pure
 
     # ---- answer-type dependent emitters
     def ret(self, v):
         if self.loop:
             return f"Return ({v}) {self.loop[-1]}"
-        return f"(Ok ({v}), self)" if self.fn.rw else f"Ok ({v})"
+        return f"(Ok ({v}), self)" if self.rw() else f"Ok ({v})"
 
     def raise_(self, e):
         if self.loop:
             return f"Raise {e} {self.loop[-1]}"
-        return f"(Err {e}, self)" if self.fn.rw else f"Err {e}"
+        return f"(Err {e}, self)" if self.rw() else f"Err {e}"
 
     def bind(self, m, pat, k):
         if self.loop:
             p = pat[1:] if pat.startswith("'") else pat
             return f"match {m} with Err e_ => Raise e_ {self.loop[-1]} | Ok {p} =>\n{k} end"
-        if self.fn.rw:
+        if self.rw():
             return f"mbind ({m}) self (fun {pat} =>\n{k})"
         return f"{pat} <- {m} ;;\n{k}"
+
+    def state_call(self, node, m, setter, pat, k):
+        """bind the result of a call that returns (outcome, new state of its receiver); the receiver is
+        self (setter None) or the object held in the field `setter` of self, which is stored back --
+        also when the call raised"""
+        if not self.rw():
+            bad(node, "mutating call where self cannot change")
+        p = pat[1:] if pat.startswith("'") else pat
+        if self.loop:
+            lp = self.loop[-1]
+            if setter is None:
+                return f"match {m} with (Err e_, self) => Raise e_ {lp} | (Ok {p}, self) =>\n{k} end"
+            return (f"match {m} with (Err e_, o_) => let self := set_{setter} o_ self in Raise e_ {lp} "
+                    f"| (Ok {p}, o_) => let self := set_{setter} o_ self in\n{k} end")
+        if setter is None:
+            return f"sbind ({m}) (fun {pat} self =>\n{k})"
+        return f"nbind ({m}) (fun o_ => set_{setter} o_ self) (fun {pat} self =>\n{k})"
+
+    # ---- objects: self, an object held in a field of self, a constant object of self
+    def objpath(self, n):
+        """(Coq text, class, field to store a new state back into or None, kind) of a receiver"""
+        fn = self.fn
+        if not fn.cls:
+            return None
+        if isinstance(n, ast.Name) and n.id == "self":
+            return "self", fn.cls, None, "self"
+        if isinstance(n, ast.Attribute) and isinstance(n.value, ast.Name) and n.value.id == "self":
+            f = CLASSES[fn.cls][1].get(n.attr)
+            if f and isinstance(f[1], tuple) and f[1][0] == "obj":
+                return f"self.({f[0]})", f[1][1], f[0], "field"
+            ci = fn.classes.get(fn.cls)
+            if ci and n.attr in ci.const_attrs:
+                c, text = ci.const_attrs[n.attr]
+                return text, c, None, "const"
+        return None
+
+    def method_of(self, call):
+        """(Meth, receiver text, store-back field, kind) when `call` is recv.m(...) for a known method m of
+        a receiver as in objpath"""
+        f = call.func
+        if not isinstance(f, ast.Attribute):
+            return None
+        r = self.objpath(f.value)
+        if r is None:
+            return None
+        text, cls, setter, kind = r
+        if kind == "self":
+            m = self.fn.methods.get(f.attr)
+        else:
+            ci = self.fn.classes.get(cls)
+            m = ci.methods.get(f.attr) if ci else None
+        if m is None:
+            return None
+        return m, text, setter, kind
+
+    def call_args(self, m, call, env):
+        """argument bindings and texts of a call of m: positional, keyword, default; type-checked"""
+        if any(isinstance(a, ast.Starred) for a in call.args) or len(call.args) > len(m.ptys):
+            bad(call, "call arity")
+        given = list(call.args) + [None] * (len(m.ptys) - len(call.args))
+        last = len(call.args) - 1
+        for kw in call.keywords:
+            if kw.arg is None or kw.arg not in m.pnames:
+                bad(call, "keyword argument")
+            i = m.pnames.index(kw.arg)
+            if given[i] is not None or i < last:
+                bad(call, "keyword argument order")
+            given[i], last = kw.value, i
+        bs, ts = [], []
+        for i, (a, pt) in enumerate(zip(given, m.ptys)):
+            if a is None:
+                a = m.defaults.get(m.pnames[i])
+                if a is None:
+                    bad(call, "call arity")
+            b, t, ty = self.E(a, env, pt)
+            if ty != pt:
+                bad(a, f"argument of type {ty} for a parameter of type {pt}")
+            bs += b
+            ts.append(f"({t})")
+        return bs, ts
+
+    def call_text(self, m, recv, ts):
+        if not m.ok:
+            raise Unsupported(f"calls {m.cname}, whose translation failed")
+        return f"{m.cname} {recv}" + ((" " + " ".join(ts)) if ts else "")
+
+    def pure_binds(self, bs, k):
+        """bindings rendered in the plain outcome monad, whatever the answer type around"""
+        for v, m in reversed(bs):
+            k = f"{v} <- {m} ;;\n{k}"
+        return k
 
     def with_bindings(self, bs, k):
         for v, m in reversed(bs):
@@ -306,6 +467,8 @@ class Tr:
             bad(n, "constant")
         if isinstance(n, ast.Name):
             if n.id in env:
+                if env[n.id] == ("opt", None):
+                    bad(n, "use of a variable that is None before its type is known")
                 return [], n.id, env[n.id]
             if n.id in fn.consts:
                 return [], n.id, fn.consts[n.id]
@@ -319,6 +482,24 @@ class Tr:
             if isinstance(n.value, ast.Name) and (n.value.id, n.attr) in CLASS_CONSTS:
                 c, t = CLASS_CONSTS[(n.value.id, n.attr)]
                 return [], c, t
+            r = self.objpath(n.value)
+            if r is not None:
+                # a field or a property of self / of an object held by self
+                text, cls, _, kind = r
+                if kind != "self" and n.attr in CLASSES[cls][1]:
+                    f, t = CLASSES[cls][1][n.attr]
+                    return [], f"{text}.({f})", t
+                g = fn.classes[cls].getters.get(n.attr) if cls in fn.classes else None
+                if isinstance(g, tuple) and g[0] == "field":
+                    return [], f"{text}.({g[1]})", g[2]
+                if isinstance(g, Meth):
+                    if g.total:
+                        return [], "(" + self.call_text(g, text, []) + ")", g.rty
+                    x = fn.tmp()
+                    return [(x, self.call_text(g, text, []))], x, g.rty
+            if isinstance(n.value, ast.Name) and n.value.id == "self" and fn.cls and fn.classes.get(fn.cls) \
+                    and n.attr in fn.classes[fn.cls].const_attrs:
+                bad(n, "a constant object used as a value")
             bad(n, "attribute")
         if isinstance(n, ast.Tuple):
             wants = want[1] if (isinstance(want, tuple) and want[0] == "tuple" and len(want[1]) == len(n.elts)) \
@@ -338,6 +519,8 @@ class Tr:
                 bs += b
                 ts.append(t)
             if ty is None:
+                if isinstance(want, tuple) and want[0] == "list":
+                    return [], "[]", want
                 bad(n, "empty list literal")
             return bs, "[" + "; ".join(ts) + "]", ("list", ty)
         if isinstance(n, ast.UnaryOp) and isinstance(n.op, ast.Not):
@@ -364,6 +547,8 @@ class Tr:
                 return lb + rb, f"({l} ++ {r})", "hex"
             if lt == "hex" and rt == "int" and isinstance(n.op, ast.Mult):
                 return lb + rb, f"(str_repeat {l} ({r}))", "hex"
+            if lt == "bytes" and rt == "bytes" and isinstance(n.op, ast.Add):
+                return lb + rb, f"({l} ++ {r})", "bytes"
             if lt != "int" or rt != "int":
                 bad(n, f"binary operator on {lt}, {rt}")
             ops = {ast.Add: "{} + {}", ast.Sub: "{} - {}", ast.Mult: "{} * {}",
@@ -415,7 +600,24 @@ class Tr:
                 return b, f"(py_hex_tail ({t}))", "hex"
             vb, v, vt = self.E(n.value, env)
             if isinstance(n.slice, ast.Slice):
-                bad(n, "slice")
+                # l[a:], l[a:b], l[:b] never raise
+                if n.slice.step is not None or not (vt == "bytes" or (isinstance(vt, tuple) and vt[0] == "list")):
+                    bad(n, "slice")
+                lo, hi = n.slice.lower, n.slice.upper
+                lb, l, lt = self.E(lo, env) if lo is not None else ([], "0", "int")
+                if lt != "int":
+                    bad(n, "slice bound")
+                if hi is None:
+                    return vb + lb, f"(slice_from {v} ({l}))", vt
+                hb, h, ht = self.E(hi, env)
+                if ht != "int":
+                    bad(n, "slice bound")
+                return vb + lb + hb, f"(slice_Z {v} ({l}) ({h}))", vt
+            if vt == "header":
+                # a header is the pair (name, value) of its class
+                if isinstance(n.slice, ast.Constant) and n.slice.value in (0, 1) and not isinstance(n.slice.value, bool):
+                    return vb, "(Decoder.%s %s)" % (("h_name", "h_value")[n.slice.value], v), "bytes"
+                bad(n, "header index")
             if isinstance(vt, tuple) and vt[0] == "tuple":
                 if not (isinstance(n.slice, ast.Constant) and isinstance(n.slice.value, int)
                         and 0 <= n.slice.value < len(vt[1])):
@@ -444,6 +646,41 @@ class Tr:
                     if ty != "int":
                         bad(n, "int() of non-int")
                     return b, t, "int"
+                if n.keywords and f.id not in fn.funs:
+                    bad(n, "keyword argument")
+                if f.id == "bool" and len(n.args) == 1:
+                    b, t, ty = self.E(n.args[0], env)
+                    if ty == "bool":
+                        return b, t, "bool"
+                    if ty == "int":
+                        return b, f"(truthy {t})", "bool"
+                    bad(n, "bool() of " + str(ty))
+                if f.id == "memoryview" and len(n.args) == 1:
+                    # a read-only view of an immutable byte string: the same sequence of bytes
+                    b, t, ty = self.E(n.args[0], env)
+                    if ty != "bytes":
+                        bad(n, "memoryview argument")
+                    return b, t, "bytes"
+                if f.id == "ord" and len(n.args) == 1:
+                    b, t, ty = self.E(n.args[0], env)
+                    if ty != "bytes":
+                        bad(n, "ord argument")
+                    x = fn.tmp()
+                    return b + [(x, f"ord_bytes {t}")], x, "int"
+                if f.id in HEADER_CLASSES:
+                    k = HEADER_CLASSES[f.id]
+                    if len(n.args) == 1 and isinstance(n.args[0], ast.Starred):
+                        b, t, ty = self.E(n.args[0].value, env)
+                        if ty != T_PAIR:
+                            bad(n, "header constructor argument")
+                        return b, f"({k}, (fst {t}), (snd {t}))", "header"
+                    if len(n.args) == 2 and not any(isinstance(a, ast.Starred) for a in n.args):
+                        ab, a, aty = self.E(n.args[0], env)
+                        vb, v, vty = self.E(n.args[1], env)
+                        if aty != "bytes" or vty != "bytes":
+                            bad(n, "header constructor argument")
+                        return ab + vb, f"({k}, {a}, {v})", "header"
+                    bad(n, "header constructor")
                 if f.id in ("bytearray", "bytes") and len(n.args) == 0:
                     return [], "[]", "bytes"
                 if f.id in ("bytearray", "bytes") and len(n.args) == 1:
@@ -490,19 +727,69 @@ class Tr:
                     if kt != "bytes":
                         bad(n, "dict key type")
                     return db + kb, f"(assoc_bytes {k} {d})", ("opt", dt[2])
-                # read-only method of self
-                if isinstance(f.value, ast.Name) and f.value.id == "self" and f.attr in fn.methods:
-                    cname, rw, ptys, rty = fn.methods[f.attr]
-                    if rw:
-                        bad(n, "mutating method call in expression position")
-                    bs, ts = [], []
-                    for a, pt in zip(n.args, ptys):
-                        b, t, ty = self.E(a, env, pt)
-                        bs += b
-                        ts.append(f"({t})")
+                # x.decode("utf-8") of a byte string
+                if f.attr == "decode" and len(n.args) == 1 and not n.keywords and isinstance(n.args[0], ast.Constant) \
+                        and n.args[0].value == "utf-8":
+                    b, t, ty = self.E(f.value, env)
+                    if ty != "bytes":
+                        bad(n, "decode receiver")
                     x = fn.tmp()
-                    return bs + [(x, f"{cname} self " + " ".join(ts))], x, rty
+                    return b + [(x, f"py_decode_utf8 {t}")], x, "bytes"
+                # b"".join([...]) / b"".join(list of byte strings)
+                if f.attr == "join" and isinstance(f.value, ast.Constant) and f.value.value == b"" and len(n.args) == 1 \
+                        and not n.keywords:
+                    if isinstance(n.args[0], ast.List) and n.args[0].elts:
+                        bs, ts = [], []
+                        for e in n.args[0].elts:
+                            b, t, ty = self.E(e, env)
+                            if ty != "bytes":
+                                bad(n, "join element")
+                            bs += b
+                            ts.append(t)
+                        return bs, "(" + " ++ ".join(ts) + ")", "bytes"
+                    b, t, ty = self.E(n.args[0], env)
+                    if ty != ("list", "bytes"):
+                        bad(n, "join argument")
+                    return b, f"(concat {t})", "bytes"
+                # h.__class__(name, value): a header of the class of h
+                if f.attr == "__class__" and len(n.args) == 2 and not n.keywords:
+                    hb, h, hty = self.E(f.value, env)
+                    ab, a, aty = self.E(n.args[0], env)
+                    vb, v, vty = self.E(n.args[1], env)
+                    if hty != "header" or aty != "bytes" or vty != "bytes":
+                        bad(n, "__class__ call")
+                    return hb + ab + vb, f"((Decoder.h_class {h}), {a}, {v})", "header"
+                # read-only method of self, of an object held by self, of a constant object of self
+                mo = self.method_of(n)
+                if mo is not None:
+                    m, recv, _, _ = mo
+                    if m.rw:
+                        bad(n, "mutating method call in expression position")
+                    bs, ts = self.call_args(m, n, env)
+                    if m.total:
+                        return bs, "(" + self.call_text(m, recv, ts) + ")", m.rty
+                    x = fn.tmp()
+                    return bs + [(x, self.call_text(m, recv, ts))], x, m.rty
             bad(n, "call")
+        if isinstance(n, ast.ListComp):
+            # [e for x in xs]: elements are computed left to right; the first exception ends it
+            if len(n.generators) != 1:
+                bad(n, "comprehension form")
+            g = n.generators[0]
+            if g.ifs or g.is_async or not isinstance(g.target, ast.Name):
+                bad(n, "comprehension form")
+            ib, it, ity = self.E(g.iter, env)
+            if not (isinstance(ity, tuple) and ity[0] == "list"):
+                bad(n, "comprehension over " + str(ity))
+            env2 = dict(env)
+            env2[g.target.id] = ity[1]
+            eb, et, ety = self.E(n.elt, env2)
+            if not eb:
+                return ib, f"(map (fun {g.target.id} => {et}) {it})", ("list", ety)
+            body = eb[-1][1] if et == eb[-1][0] else f"Ok ({et})"
+            body = self.pure_binds(eb[:-1] if et == eb[-1][0] else eb, body)
+            x = fn.tmp()
+            return ib + [(x, f"traverse (fun {g.target.id} =>\n{body}) {it}")], x, ("list", ety)
         if isinstance(n, ast.JoinedStr):
             bs = []
             for v in n.values:
@@ -524,6 +811,10 @@ class Tr:
         if ty in ("bytes", "hex") or (isinstance(ty, tuple) and ty[0] == "list"):
             return b, f"(negb (len {t} =? 0))"
         if isinstance(ty, tuple) and ty[0] == "opt" and isinstance(ty[1], tuple) and ty[1][0] == "tuple":
+            return b, f"(opt_truthy {t})"
+        if ty == "header":
+            return b, "true"      # a pair is never empty
+        if ty == ("opt", "header"):
             return b, f"(opt_truthy {t})"
         bad(n, f"truthiness of {ty}")
 
@@ -562,9 +853,11 @@ class Tr:
                 while isinstance(base, ast.Attribute):
                     base = base.value
                 if isinstance(base, ast.Name) and base.id not in ("log", "bytes", "HeaderTable"):
-                    pure = s.func.attr in ("get", "rstrip", "startswith")
+                    pure = s.func.attr in ("get", "rstrip", "startswith", "decode", "__class__")
                     if isinstance(s.func.value, ast.Name) and s.func.value.id == "self" and s.func.attr in self.fn.methods:
-                        pure = not self.fn.methods[s.func.attr][1]
+                        pure = not self.fn.methods[s.func.attr].rw
+                    elif base.id == "self" and self.method_of(s) is not None:
+                        pure = not self.method_of(s)[0].rw
                     if not pure:
                         add(base.id)
             if isinstance(s, ast.Assign):
@@ -627,20 +920,27 @@ class Tr:
                     if f.attr == "appendleft" and len(v.args) == 1:
                         b, t, ty = self.E(v.args[0], env, fty[1])
                         return self.with_bindings(b, f"let self := set_{fld} ({t} :: self.({fld})) self in\n" + cont(env))
-                # self.method(...) as a statement
-                if isinstance(f.value, ast.Name) and f.value.id == "self" and f.attr in fn.methods:
-                    cname, rw, ptys, rty = fn.methods[f.attr]
-                    bs, ts = [], []
-                    for a, pt in zip(v.args, ptys):
-                        b, t, ty = self.E(a, env, pt)
-                        bs += b
-                        ts.append(f"({t})")
-                    args = (" " + " ".join(ts)) if ts else ""
-                    if self.loop:
+                    if f.attr == "append" and len(v.args) == 1 and not v.keywords and isinstance(fty, tuple) \
+                            and fty[0] == "list":
+                        if not self.rw():
+                            bad(s, "mutation where self cannot change")
+                        b, t, ty = self.E(v.args[0], env, fty[1])
+                        return self.with_bindings(b, f"let self := set_{fld} (self.({fld}) ++ [{t}]) self in\n" + cont(env))
+                # self.method(...), self.<object>.method(...) as a statement
+                mo = self.method_of(v)
+                if mo is not None:
+                    m, recv, setter, kind = mo
+                    bs, ts = self.call_args(m, v, env)
+                    if m.total:
+                        bad(s, "a value as a statement")
+                    if self.loop and kind == "self":
                         bad(s, "method call statement inside a loop")
-                    if rw:
-                        return self.with_bindings(bs, f"sbind ({cname} self{args}) (fun _ self =>\n{cont(env)})")
-                    return self.with_bindings(bs, self.bind(f"{cname} self{args}", "_", cont(env)))
+                    call = self.call_text(m, recv, ts)
+                    if m.rw:
+                        if kind == "const":
+                            bad(s, "mutation of a constant object")
+                        return self.with_bindings(bs, self.state_call(s, call, setter, "_", cont(env)))
+                    return self.with_bindings(bs, self.bind(call, "_", cont(env)))
                 # local.append(x)
                 if isinstance(f.value, ast.Name) and f.attr == "append" and f.value.id in env and len(v.args) == 1:
                     nm = f.value.id
@@ -652,10 +952,35 @@ class Tr:
                         b, t, aty = self.E(v.args[0], env, ty[1])
                         return self.with_bindings(b, f"let {nm} := {nm} ++ [{t}] in\n" + cont(env))
             bad(s, "expression statement")
+        if isinstance(s, ast.AnnAssign) and s.value is None and isinstance(s.target, ast.Name):
+            return cont(env)      # a declaration
+        ann_want = None
         if isinstance(s, ast.AnnAssign) and s.value is not None and isinstance(s.target, ast.Name):
+            if isinstance(s.value, ast.List) and not s.value.elts:
+                ann_want = ann(s.annotation)
             s = ast.Assign(targets=[s.target], value=s.value, lineno=s.lineno)
         if isinstance(s, ast.Assign) and len(s.targets) == 1:
             t = s.targets[0]
+            # x = recv.m(...), a, b = recv.m(...) for a mutating method m
+            mo = self.method_of(s.value) if isinstance(s.value, ast.Call) else None
+            if mo is not None and mo[0].rw:
+                m, recv, setter, kind = mo
+                if kind == "const":
+                    bad(s, "mutation of a constant object")
+                bs, ts = self.call_args(m, s.value, env)
+                call = self.call_text(m, recv, ts)
+                env2 = dict(env)
+                if isinstance(t, ast.Name):
+                    env2[t.id] = m.rty
+                    return self.with_bindings(bs, self.state_call(s, call, setter, t.id, cont(env2)))
+                if isinstance(t, ast.Tuple) and all(isinstance(e, ast.Name) for e in t.elts) \
+                        and isinstance(m.rty, tuple) and m.rty[0] == "tuple" and len(m.rty[1]) == len(t.elts):
+                    env2.update({e.id: x for e, x in zip(t.elts, m.rty[1])})
+                    x = fn.tmp()
+                    pat = "'(" + ", ".join(e.id for e in t.elts) + ")"
+                    return self.with_bindings(bs, self.state_call(s, call, setter, x,
+                                                                  f"let {pat} := {x} in\n" + cont(env2)))
+                bad(s, "target of a mutating call")
             # a, b = self.<deque>.pop()
             if isinstance(s.value, ast.Call) and isinstance(s.value.func, ast.Attribute) and s.value.func.attr == "pop" \
                     and not s.value.args:
@@ -677,9 +1002,14 @@ class Tr:
                 want = env.get(t.id) if (t.id in env and isinstance(env[t.id], tuple) and env[t.id][0] == "opt") else None
                 if want is None and t.id in self.ret_vars and isinstance(fn.ret_type, tuple) and fn.ret_type[0] == "opt":
                     want = fn.ret_type
+                if want is None and ann_want is not None:
+                    want = ann_want
                 b, txt, ty = self.E(s.value, env, want)
                 if ty == "noneval":
-                    bad(s, "None assigned to a variable of unknown type")
+                    if not self.unify_ok:
+                        bad(s, "None assigned to a variable of unknown type")
+                    # the type is fixed where this branch joins the others (see the If case)
+                    txt, ty = "None", ("opt", None)
                 env2 = dict(env)
                 env2[t.id] = ty
                 return self.with_bindings(b, f"let {t.id} := {txt} in\n" + cont(env2))
@@ -696,7 +1026,32 @@ class Tr:
                 f, fty = CLASSES[fn.cls][1][t.attr]
                 b, txt, ty = self.E(s.value, env, fty)
                 return self.with_bindings(b, f"let self := set_{f} ({txt}) self in\n" + cont(env))
+            if isinstance(t, ast.Attribute) and self.objpath(t.value) is not None:
+                # recv.prop = v: the property setter of self / of an object held by self
+                recv, cls, setter, kind = self.objpath(t.value)
+                m = fn.classes[cls].setters.get(t.attr) if cls in fn.classes else None
+                if m is None or kind == "const":
+                    bad(s, "assignment target")
+                b, txt, ty = self.E(s.value, env, m.ptys[0])
+                call = self.call_text(m, recv, [f"({txt})"])
+                return self.with_bindings(b, self.state_call(s, call, setter, "_", cont(env)))
             bad(s, "assignment target")
+        if isinstance(s, ast.AugAssign) and isinstance(s.target, ast.Subscript):
+            # x[0] |= v on a bytearray that nothing else refers to.  CPython loads x[0] (IndexError), then
+            # evaluates v, then stores (ValueError outside 0..255): or_first has the first and the last,
+            # and when v itself can raise the load is made explicit in front of it.
+            tg = s.target
+            if not (isinstance(tg.value, ast.Name) and isinstance(tg.slice, ast.Constant) and tg.slice.value == 0
+                    and not isinstance(tg.slice.value, bool) and isinstance(s.op, ast.BitOr)
+                    and env.get(tg.value.id) == "bytes"):
+                bad(s, "augmented assignment target")
+            nm = tg.value.id
+            self.check_private_bytearray(s, nm)
+            b, txt, ty = self.E(s.value, env)
+            if ty != "int":
+                bad(s, "operand of |=")
+            pre = [(fn.tmp(), f"index_Z {nm} (0)")] if b else []
+            return self.with_bindings(pre + b, self.bind(f"or_first {nm} ({txt})", nm, cont(env)))
         if isinstance(s, ast.AugAssign):
             if not isinstance(s.target, (ast.Name, ast.Attribute)):
                 bad(s, "augmented assignment target")
@@ -707,6 +1062,15 @@ class Tr:
         if isinstance(s, ast.Return):
             if s.value is None:
                 return self.ret("tt")
+            mo = self.method_of(s.value) if isinstance(s.value, ast.Call) else None
+            if mo is not None and mo[0].rw:
+                # return recv.m(...) for a mutating method m
+                m, recv, setter, kind = mo
+                if kind == "const" or m.rty != fn.ret_type:
+                    bad(s, "returned mutating call")
+                bs, ts = self.call_args(m, s.value, env)
+                x = fn.tmp()
+                return self.with_bindings(bs, self.state_call(s, self.call_text(m, recv, ts), setter, x, self.ret(x)))
             b, txt, ty = self.E(s.value, env, fn.ret_type)
             return self.with_bindings(b, self.ret(txt))
         if isinstance(s, ast.Raise):
@@ -733,7 +1097,15 @@ class Tr:
             # Join point: when both arms can fall through into a continuation that is expensive to
             # duplicate, the continuation becomes a local function of the variables the arms assign.
             big = any(isinstance(x, (ast.While, ast.For, ast.Try)) for r in rest for x in ast.walk(r)) or len(rest) > 2
-            join = ft_then and ft_else and big and rest
+            # ... and also when an arm sets a variable to None whose type only the other arms tell
+            # (x = None / x = <value>): the join is where x becomes an option.
+            unify = any(isinstance(x, ast.Assign) and len(x.targets) == 1 and isinstance(x.targets[0], ast.Name)
+                        and isinstance(x.value, ast.Constant) and x.value.value is None
+                        and not (isinstance(env.get(x.targets[0].id), tuple) and env[x.targets[0].id][0] == "opt")
+                        and not (x.targets[0].id in self.ret_vars and isinstance(fn.ret_type, tuple)
+                                 and fn.ret_type[0] == "opt")
+                        for st in s.body + s.orelse for x in ast.walk(st))
+            join = ft_then and ft_else and (big or unify) and rest
             if join:
                 fn.fresh += 1
                 kname = f"k{fn.fresh}_"
@@ -741,18 +1113,32 @@ class Tr:
 
                 def jk(e, kname=kname, exits=exits):
                     exits.append(_merge(env, e))
-                    return f"{kname} @@JV@@"
+                    return f"{kname} @@JV:{kname}:{len(exits) - 1}@@"
                 then_k = else_k = jk
+                if unify:
+                    self.unify_ok += 1
             else:
                 then_k = (lambda e: cont(_merge(env, e))) if ft_then else dead
                 else_k = (lambda e: cont(_merge(env, e))) if ft_else else dead
             if var is not None and var in env and isinstance(env[var], tuple) and env[var][0] == "opt":
                 # Optional narrowing: inside the non-None arm the name denotes the value
                 inner = env[var][1]
+                if inner is None:
+                    bad(s, "test of a variable that is None before its type is known")
+                if isinstance(s.test, ast.Name) and not (inner == "header" or (isinstance(inner, tuple)
+                                                                              and inner[0] == "tuple" and inner[1])):
+                    bad(s, "truthiness of an optional whose value can be false")
                 some_body, none_body = (s.body, s.orelse) if positive else (s.orelse, s.body)
                 some_k, none_k = (then_k, else_k) if positive else (else_k, then_k)
                 reads = any(isinstance(x, ast.Name) and x.id == var for st in some_body for x in ast.walk(st))
-                if reads:
+                if not positive and not s.orelse and not ft_then and not self.loop \
+                        and any(isinstance(x, ast.Name) and x.id == var for st in rest for x in ast.walk(st)):
+                    # `if x is None: <leaves>`: from here on the name denotes the value
+                    env_some = dict(env)
+                    env_some[var] = inner
+                    a = some_k(env_some)
+                    somepat = var
+                elif reads:
                     env_some = dict(env)
                     env_some[var] = inner
 
@@ -781,17 +1167,37 @@ class Tr:
                 b_ = self.B(s.orelse, env, else_k) if s.orelse else else_k(env)
                 text = f"if {c}\nthen {a}\nelse {b_}"
             if join:
+                if unify:
+                    self.unify_ok -= 1
                 cands = self.assigned(s.body + s.orelse)
-                jv = [v for v in cands if all(v in e for e in exits)]
-                if "self" in jv and not fn.rw:
+                # self is not in the environments: it is a parameter of the join exactly when an arm can
+                # change it (otherwise the continuation would see the self of before the If)
+                jv = [v for v in cands if (self.rw() if v == "self" else all(v in e for e in exits))]
+                if "self" in cands and not self.rw():
                     bad(s, "self assigned in a read-only method")
                 envk = dict(env)
+                typed = {}
                 for v in jv:
-                    if v != "self":
-                        envk[v] = exits[0][v]
+                    if v == "self":
+                        continue
+                    tys = [e[v] for e in exits]
+                    if all(t == tys[0] for t in tys) and tys[0] != ("opt", None):
+                        envk[v] = tys[0]
+                        continue
+                    # T in some arms, None (or an option of T) in others: an option of T
+                    base = [t for t in tys if not (isinstance(t, tuple) and t[0] == "opt")]
+                    base += [t[1] for t in tys if isinstance(t, tuple) and t[0] == "opt" and t[1] is not None]
+                    if not base or any(t != base[0] for t in base):
+                        bad(s, f"the arms give {v} the types {tys}")
+                    envk[v] = typed[v] = ("opt", base[0])
                 ktext = cont(envk)
-                params = " ".join(jv) if jv else "(_ : unit)"
-                text = text.replace("@@JV@@", " ".join(jv) if jv else "tt")
+                # binders carry their type where Coq could not infer it from the body (an option made at this
+                # join, the scrutinee of an `if`)
+                params = " ".join(f"({v} : {cty(envk[v])})" if v in typed or envk.get(v) == "bool" else v
+                                  for v in jv) if jv else "(_ : unit)"
+                for i, e in enumerate(exits):
+                    args = [f"(Some {v})" if v in typed and e[v] == typed[v][1] else v for v in jv]
+                    text = text.replace(f"@@JV:{kname}:{i}@@", " ".join(args) if jv else "tt")
                 text = f"let {kname} := fun {params} =>\n{ktext} in\n{text}"
             return self.with_bindings(cb, text)
         if isinstance(s, (ast.While, ast.For)):
@@ -799,10 +1205,13 @@ class Tr:
             if isinstance(s, ast.For):
                 tnames = {x.id for x in ast.walk(s.target) if isinstance(x, ast.Name)}
                 vars_ = [v for v in vars_ if v not in tnames]
-            if fn.rw and "self" not in vars_:
+            if self.rw() and "self" not in vars_:
                 vars_.append("self")
-            if not fn.rw and "self" in vars_:
+            if not self.rw() and "self" in vars_:
                 bad(s, "loop mutates self in a read-only method")
+            if isinstance(s, ast.For) and "self" in self.assigned(s.body) \
+                    and any(isinstance(x, ast.Name) and x.id == "self" for x in ast.walk(s.iter)):
+                bad(s, "loop over a part of self that its body may change")
             pat = _tuple(vars_)
             binder = _binder(vars_)
             if s.orelse:
@@ -833,14 +1242,22 @@ class Tr:
                 self.loopvars.pop()
                 head = f"for_each ({it}) (fun {elt_binder} {binder} =>\n{body}) {pat}"
             after = cont(env)
-            if fn.rw:
+            if self.rw():
                 return (f"match {head} with\n| Done {pat} =>\n{after}\n| Returned r_ {pat} => (Ok r_, self)\n"
                         f"| Raised e_ {pat} => (Err e_, self)\n| Exhausted {pat} => (Err OutOfFuel, self)\nend")
             return (f"match {head} with\n| Done {pat} =>\n{after}\n| Returned r_ _ => Ok r_\n"
                     f"| Raised e_ _ => Err e_\n| Exhausted _ => Err OutOfFuel\nend")
         if isinstance(s, ast.Try):
-            if len(s.handlers) != 1 or s.orelse or s.finalbody or fn.rw or self.loop:
+            if len(s.handlers) != 1 or s.orelse or s.finalbody or self.loop:
                 bad(s, "try form")
+            # In a mutating method the block is translated as a plain outcome: it must leave self alone.
+            if self.rw() and "self" in self.assigned(s.body):
+                bad(s, "try block that may change self")
+            # `return e` may only be the last statement of the block (then the block is the result)
+            rets = [x for st in s.body for x in ast.walk(st) if isinstance(x, ast.Return)]
+            returning = bool(rets)
+            if returning and not (len(rets) == 1 and s.body[-1] is rets[0] and rets[0].value is not None):
+                bad(s, "return inside try")
             h = s.handlers[0]
             if not (isinstance(h.type, ast.Name) and h.type.id in EXN and isinstance(h.body[-1], ast.Raise)
                     and isinstance(h.body[-1].exc, ast.Call) and isinstance(h.body[-1].exc.func, ast.Name)
@@ -850,13 +1267,53 @@ class Tr:
                 if not (isinstance(hs, ast.Assign) and isinstance(hs.value, (ast.JoinedStr, ast.Constant))):
                     bad(hs, "statement in handler")
             to = h.body[-1].exc.func.id
+            if returning:
+                self.pure += 1
+                inner = self.B(s.body, env, lambda e: bad(s, "try block"))
+                self.pure -= 1
+                x = fn.tmp()
+                return self.bind(f"catch {h.type.id} {to} (\n{inner})", x, self.ret(x))
             used_after = {x.id for r in rest for x in ast.walk(r) if isinstance(x, ast.Name)}
             vars_ = [v for v in self.assigned(s.body) if v in used_after]
             pat = _tuple(vars_)
             envb = dict(env)
+            if self.rw():
+                self.pure += 1
+                inner = self.B(s.body, env, lambda e: (envb.update({v: e[v] for v in vars_}), f"Ok {pat}")[1])
+                self.pure -= 1
+                return self.bind(f"catch {h.type.id} {to} (\n{inner})", _binder(vars_), cont(envb))
             inner = self.B(s.body, env, lambda e: (envb.update({v: e[v] for v in vars_}), f"Ok {pat}")[1])
             return f"{_binder(vars_)} <- catch {h.type.id} {to} (\n{inner}) ;;\n" + cont(envb)
         bad(s, "statement")
+
+    def check_private_bytearray(self, node, nm):
+        """nm is a local bytearray with no other reference to it: every assignment to it is the result of
+        a function that returns a fresh bytearray (or bytearray(...)), and it is only ever read by
+        bytes(nm), len(nm) and nm[0] |= ...  -- so that mutating it in place is rebinding it"""
+        fn = self.fn
+        if fn.fd is None or nm in [a.arg for a in fn.fd.args.args]:
+            bad(node, "in-place update of a parameter")
+        parents = {}
+        for p in ast.walk(fn.fd):
+            for c in ast.iter_child_nodes(p):
+                parents[c] = p
+        for x in ast.walk(fn.fd):
+            if not (isinstance(x, ast.Name) and x.id == nm):
+                continue
+            p = parents.get(x)
+            if isinstance(x.ctx, ast.Store):
+                v = p.value if isinstance(p, ast.Assign) and len(p.targets) == 1 and p.targets[0] is x else None
+                if not (isinstance(v, ast.Call) and isinstance(v.func, ast.Name)
+                        and (v.func.id in fn.bytearray_funs or v.func.id == "bytearray")):
+                    bad(node, f"{nm} is not known to be a fresh bytearray")
+            elif isinstance(p, ast.Call) and isinstance(p.func, ast.Name) and p.func.id in ("bytes", "len") \
+                    and p.args == [x] and not p.keywords:
+                pass
+            elif isinstance(p, ast.Subscript) and p.value is x and isinstance(parents.get(p), ast.AugAssign) \
+                    and parents[p].target is p:
+                pass
+            else:
+                bad(node, f"{nm} may be shared")
 
     def iterator(self, s, env):
         """for-loop header: (iterated list, element binder, prefix text, body env)"""
@@ -958,13 +1415,94 @@ def mutates_self(fd, rw_methods):
     return False
 
 
-def translate_function(fd, cls, cname, rw, consts, methods, funs):
+def mutates_self_obj(fd, cls, rw_names, classes):
+    """mutates_self for the classes whose instances hold other objects: does the body store into self or
+    into anything reached from self (attribute, property, item), call a mutating method of self, or call
+    on an attribute of self anything that is not known to leave it alone?"""
+    fields = CLASSES[cls][1]
+    for s in ast.walk(fd):
+        if isinstance(s, (ast.Assign, ast.AugAssign, ast.AnnAssign, ast.Delete)):
+            tgts = s.targets if isinstance(s, (ast.Assign, ast.Delete)) else [s.target]
+            for t in tgts:
+                for x in ([t] if not isinstance(t, ast.Tuple) else list(t.elts)):
+                    base = x
+                    while isinstance(base, (ast.Attribute, ast.Subscript)):
+                        base = base.value
+                    if isinstance(base, ast.Name) and base.id == "self" and base is not x:
+                        return True
+        if isinstance(s, ast.Call) and isinstance(s.func, ast.Attribute):
+            f = s.func
+            if isinstance(f.value, ast.Name) and f.value.id == "self":
+                if f.attr in rw_names:
+                    return True
+                continue
+            base = f.value
+            while isinstance(base, (ast.Attribute, ast.Subscript)):
+                base = base.value
+            if not (isinstance(base, ast.Name) and base.id == "self"):
+                continue
+            known = None
+            if isinstance(f.value, ast.Attribute) and isinstance(f.value.value, ast.Name):
+                a = f.value.attr
+                if a in fields and isinstance(fields[a][1], tuple) and fields[a][1][0] == "obj":
+                    known = classes[fields[a][1][1]].methods.get(f.attr)
+                elif (cls, a) in CONST_ATTRS:
+                    known = classes[CONST_ATTRS[(cls, a)]].methods.get(f.attr)
+            if known is None or known.rw:
+                return True
+    return False
+
+
+def rename_reserved(fd):
+    """local names that are Coq keywords get a trailing underscore"""
+    names = {x.id for x in ast.walk(fd) if isinstance(x, ast.Name)} | {a.arg for a in fd.args.args}
+    for x in ast.walk(fd):
+        if isinstance(x, ast.Name) and x.id in RESERVED:
+            if x.id + "_" in names:
+                raise Unsupported(f"cannot rename {x.id}")
+            x.id += "_"
+        elif isinstance(x, ast.arg) and x.arg in RESERVED:
+            if x.arg + "_" in names:
+                raise Unsupported(f"cannot rename {x.arg}")
+            x.arg += "_"
+
+
+def signature(fd, cls):
+    """parameter names, types and constant defaults of a function or method (without self)"""
+    args = fd.args.args[1:] if cls else fd.args.args
+    if fd.args.vararg or fd.args.kwarg or fd.args.kwonlyargs or fd.args.posonlyargs or fd.args.kw_defaults:
+        raise Unsupported("parameter form")
+    defaults = {}
+    for a, d in zip(reversed(args), reversed(fd.args.defaults)):
+        if not isinstance(d, ast.Constant):
+            raise Unsupported("default value")
+        defaults[a.arg] = d
+    return [a.arg for a in args], [ann(a.annotation) for a in args], defaults
+
+
+def translate_total(fd, cls, cname, consts, methods, funs, classes):
+    """a method whose body is `return e` for an expression e that cannot raise: a plain value"""
+    body = [s for s in fd.body if not (isinstance(s, ast.Expr) and isinstance(s.value, ast.Constant))]
+    if len(body) != 1 or not isinstance(body[0], ast.Return) or body[0].value is None:
+        raise Unsupported("not a single return")
+    pn, pt, _ = signature(fd, cls)
+    rt = ann(fd.returns, ret=True)
+    fn = Fn(fd.name, cls, False, list(zip(pn, pt)), rt, consts, methods, funs, classes, fd)
+    b, t, ty = Tr(fn).E(body[0].value, dict(zip(pn, pt)), rt)
+    if b or ty != rt:
+        raise Unsupported("the returned expression can raise")
+    ps = "".join(f" ({n} : {cty(t_)})" for n, t_ in zip(pn, pt))
+    return f"Definition {cname} (self : {CLASSES[cls][0]}){ps} : {cty(rt)} :=\n{t}."
+
+
+def translate_function(fd, cls, cname, rw, consts, methods, funs, classes=None, bytearray_funs=()):
     args = fd.args.args[1:] if cls else fd.args.args
     if fd.args.vararg or fd.args.kwarg or fd.args.kwonlyargs:
         raise Unsupported("parameter form")
+    rename_reserved(fd)
     params = [(a.arg, ann(a.annotation)) for a in args]
-    rt = ann(fd.returns)
-    fn = Fn(fd.name, cls, rw, params, rt, consts, methods, funs)
+    rt = ann(fd.returns, ret=True)
+    fn = Fn(fd.name, cls, rw, params, rt, consts, methods, funs, classes, fd, bytearray_funs)
     tr = Tr(fn)
     tr.ret_vars = {s.value.id for s in ast.walk(fd) if isinstance(s, ast.Return) and isinstance(s.value, ast.Name)}
     env = dict(params)
@@ -997,6 +1535,72 @@ def module_consts(tree, cenv, status, prefix=""):
             except Unsupported as e:
                 status[prefix + name] = f"unsupported: {e}"
     return out
+
+
+def find_accessor(tree, cls, prop, setter):
+    """the getter (@property) or the setter (@prop.setter) of a property of a class"""
+    body = next((n for n in tree.body if isinstance(n, ast.ClassDef) and n.name == cls), None)
+    if body is None:
+        raise Unsupported(f"class {cls} not found")
+    found = []
+    for n in body.body:
+        if isinstance(n, ast.FunctionDef) and n.name == prop and len(n.decorator_list) == 1:
+            d = n.decorator_list[0]
+            if setter and isinstance(d, ast.Attribute) and d.attr == "setter" and isinstance(d.value, ast.Name) \
+                    and d.value.id == prop:
+                found.append(n)
+            if not setter and isinstance(d, ast.Name) and d.id == "property":
+                found.append(n)
+    if len(found) != 1:
+        raise Unsupported(f"accessor of {cls}.{prop} not found")
+    return found[0]
+
+
+def const_attr_text(tree, objtree, cls, attr, objcls, consts):
+    """self.<attr> is assigned exactly once in the class, in __init__, as ObjCls(C1, ..., Cn) with module
+    constants Ci, and ObjCls.__init__ only stores its parameters into its fields: the record of the Ci"""
+    cdef = next((n for n in tree.body if isinstance(n, ast.ClassDef) and n.name == cls), None)
+    odef = next((n for n in objtree.body if isinstance(n, ast.ClassDef) and n.name == objcls), None)
+    if cdef is None or odef is None:
+        raise Unsupported("class not found")
+    stores = []
+    for fdef in cdef.body:
+        for x in ast.walk(fdef):
+            if isinstance(x, ast.Attribute) and x.attr == attr and isinstance(x.ctx, (ast.Store, ast.Del)):
+                stores.append((fdef, x))
+            # anything else that could rebind it
+            if isinstance(x, ast.Call) and isinstance(x.func, ast.Name) and x.func.id in ("setattr", "delattr"):
+                raise Unsupported("setattr in the class")
+    init = next((n for n in cdef.body if isinstance(n, ast.FunctionDef) and n.name == "__init__"), None)
+    if init is None or len(stores) != 1 or stores[0][0] is not init:
+        raise Unsupported(f"{cls}.{attr} is not assigned exactly once, in __init__")
+    asg = next((x for x in init.body if isinstance(x, ast.Assign) and len(x.targets) == 1
+                and x.targets[0] is stores[0][1]), None)
+    if asg is None or not (isinstance(asg.targets[0].value, ast.Name) and asg.targets[0].value.id == "self"):
+        raise Unsupported(f"form of the assignment of {cls}.{attr}")
+    v = asg.value
+    if not (isinstance(v, ast.Call) and isinstance(v.func, ast.Name) and v.func.id == objcls and not v.keywords
+            and all(isinstance(a, ast.Name) and a.id in consts for a in v.args)):
+        raise Unsupported(f"{cls}.{attr} is not {objcls}(constants)")
+    oinit = next((n for n in odef.body if isinstance(n, ast.FunctionDef) and n.name == "__init__"), None)
+    if oinit is None:
+        raise Unsupported(f"{objcls}.__init__ not found")
+    pn, pt, _ = signature(oinit, objcls)
+    body = [x for x in oinit.body if not (isinstance(x, ast.Expr) and isinstance(x.value, ast.Constant))]
+    fields = CLASSES[objcls][1]
+    if len(pn) != len(v.args) or len(body) != len(pn) or set(pn) != set(fields):
+        raise Unsupported(f"form of {objcls}.__init__")
+    for x in body:
+        if not (isinstance(x, ast.Assign) and len(x.targets) == 1 and isinstance(x.targets[0], ast.Attribute)
+                and isinstance(x.targets[0].value, ast.Name) and x.targets[0].value.id == "self"
+                and isinstance(x.value, ast.Name) and x.value.id == x.targets[0].attr and x.value.id in pn):
+            raise Unsupported(f"form of {objcls}.__init__")
+    parts = []
+    for nm, ty, a in zip(pn, pt, v.args):
+        if consts[a.id] != ty or fields[nm][1] != ty:
+            raise Unsupported(f"type of {a.id}")
+        parts.append(f"{fields[nm][0]} := {a.id}")
+    return "{| " + "; ".join(parts) + " |}"
 
 
 def main():
@@ -1041,10 +1645,16 @@ def main():
 
     def emit(fname, items, extra):
         defs = []
-        for key, thunk in items:
+        for key, thunk, *done in items:
             try:
                 defs.append(thunk())
                 status[key] = "translated"
+                for d in done:
+                    # what makes the definition callable from the later ones
+                    if isinstance(d, Meth):
+                        d.ok = True
+                    elif d is not None:
+                        d()
             except Unsupported as e:
                 status[key] = f"unsupported: {e}"
                 defs.append(f"(* {key}: unsupported: {e} *)")
@@ -1104,7 +1714,7 @@ def main():
     for nm, fd in tdefs.items():
         try:
             ptys = [ann(a.annotation) for a in fd.args.args[1:]]
-            tmeth[nm] = (coqname[nm], nm in rw, ptys, ann(fd.returns))
+            tmeth[nm] = Meth(coqname[nm], nm in rw, ptys, ann(fd.returns), [a.arg for a in fd.args.args[1:]])
         except Unsupported:
             pass
     items = [("table.table_entry_size", tes)]
@@ -1116,6 +1726,134 @@ def main():
     emit("GHuff.v", [("huffman.HuffmanEncoder.encode",
                      fun(trees["huffman"], "encode", "HuffmanEncoder", "HuffmanEncoder_encode", False, {})),
                     ("huffman_table.decode_huffman", fun(trees["huffman_table"], "decode_huffman"))], imp)
+
+    # ---------------- hpack.Decoder, hpack.Encoder (objects that hold a HeaderTable)
+    hp = trees["hpack"]
+
+    def translated(key):
+        return status.get(key) == "translated"
+
+    def sig_of(fd, cls, cname, **kw):
+        pn, pt, df = signature(fd, cls)
+        return Meth(cname, False, pt, ann(fd.returns, ret=True), pn, defaults=df, **kw)
+
+    classes = {c: ClsInfo() for c in CLASSES}
+    for nm, m in tmeth.items():
+        m.ok = translated(f"table.HeaderTable.{nm}")
+        if nm == "maxsize":
+            classes["HeaderTable"].setters["maxsize"] = m
+        else:
+            classes["HeaderTable"].methods[nm] = m
+    try:
+        # the getter of HeaderTable.maxsize is `return self._maxsize`: reading the field
+        g = find_accessor(trees["table"], "HeaderTable", "maxsize", False)
+        body = [x for x in g.body if not (isinstance(x, ast.Expr) and isinstance(x.value, ast.Constant))]
+        v = body[0].value if len(body) == 1 and isinstance(body[0], ast.Return) else None
+        if isinstance(v, ast.Attribute) and isinstance(v.value, ast.Name) and v.value.id == "self" \
+                and v.attr in CLASSES["HeaderTable"][1]:
+            f, t = CLASSES["HeaderTable"][1][v.attr]
+            classes["HeaderTable"].getters["maxsize"] = ("field", f, t)
+    except Unsupported:
+        pass
+    try:
+        m = sig_of(find(trees["huffman"], "encode", "HuffmanEncoder"), "HuffmanEncoder", "HuffmanEncoder_encode")
+        m.ok = translated("huffman.HuffmanEncoder.encode")
+        classes["HuffmanEncoder"].methods["encode"] = m
+    except Unsupported:
+        pass
+    for (c, a), oc in CONST_ATTRS.items():
+        try:
+            classes[c].const_attrs[a] = (oc, const_attr_text(hp, trees["huffman"], c, a, oc, consts))
+        except Unsupported as e:
+            status[f"hpack.{c}.{a}"] = f"unsupported: {e}"
+
+    funs2 = dict(funs)
+    bytearray_funs = set()
+    for key, tree, name in (("hpack.encode_integer", hp, "encode_integer"), ("hpack.decode_integer", hp, "decode_integer"),
+                            ("huffman_table.decode_huffman", trees["huffman_table"], "decode_huffman")):
+        if translated(key):
+            fd = find(tree, name)
+            funs2[name] = (name, [ann(a.annotation) for a in fd.args.args], ("raises", ann(fd.returns, ret=True)))
+            if isinstance(fd.returns, ast.Name) and fd.returns.id == "bytearray":
+                bytearray_funs.add(name)
+
+    def object_class(cls, plan, fname, first, extra):
+        """plan: (python name, kind, coq name) with kind method | getter | setter, in an order in which
+        callees precede callers"""
+        defs, names = {}, {}
+        for nm, kind, cname in plan:
+            try:
+                fd = find(hp, nm, cls) if kind == "method" else find_accessor(hp, cls, nm, kind == "setter")
+                defs[(nm, kind)] = fd
+                m = sig_of(fd, cls, cname, ok=False)
+                {"method": classes[cls].methods, "getter": classes[cls].getters,
+                 "setter": classes[cls].setters}[kind][nm] = m
+                names[(nm, kind)] = m
+            except Unsupported:
+                pass
+        # which of them change self (fixpoint over the calls between them)
+        changed = True
+        while changed:
+            changed = False
+            rwn = {nm for (nm, kind), m in names.items() if kind == "method" and m.rw}
+            for (nm, kind), m in names.items():
+                if not m.rw and (kind == "setter" or mutates_self_obj(defs[(nm, kind)], cls, rwn, classes)):
+                    if kind == "getter":
+                        continue    # reported when it is translated
+                    m.rw = changed = True
+        items = list(first)
+        for nm, kind, cname in plan:
+            key = f"hpack.{cls}.{nm}" + (".setter" if kind == "setter" else "")
+
+            def thunk(nm=nm, kind=kind, cname=cname):
+                if (nm, kind) not in defs:
+                    raise Unsupported(f"definition {nm} not found or its signature is not supported")
+                fd, m = defs[(nm, kind)], names[(nm, kind)]
+                if kind == "getter":
+                    if mutates_self_obj(fd, cls, {n for (n, k), x in names.items() if k == "method" and x.rw}, classes):
+                        raise Unsupported("a property getter that changes self")
+                    try:
+                        text = translate_total(fd, cls, cname, consts, classes[cls].methods, funs2, classes)
+                        m.total = True
+                        return text
+                    except Unsupported:
+                        pass
+                return translate_function(fd, cls, cname, m.rw, consts, classes[cls].methods, funs2, classes,
+                                          bytearray_funs)
+            items.append((key, thunk, names.get((nm, kind))))
+        emit(fname, items, extra)
+
+    def unicode_if_needed():
+        return translate_function(find(hp, "_unicode_if_needed"), None, "_unicode_if_needed", False, consts, {}, funs2)
+
+    def reg_unicode():
+        fd = find(hp, "_unicode_if_needed")
+        funs2["_unicode_if_needed"] = ("_unicode_if_needed", [ann(a.annotation) for a in fd.args.args],
+                                       ("raises", ann(fd.returns, ret=True)))
+
+    imp2 = ("From HV Require Import Prelude.Utf8 Prelude.PyExtra.\n"
+            "From HV Require Model.Decoder. (* only for the types of header values: Decoder.header, Decoder.hclass *)\n"
+            "From HV Require Import Gen.GData Gen.GInt Gen.GTable Gen.GHuff.\n")
+    object_class("Decoder",
+                 [("header_table_size", "getter", "Decoder_header_table_size"),
+                  ("header_table_size", "setter", "Decoder_set_header_table_size"),
+                  ("_assert_valid_table_size", "method", "Decoder__assert_valid_table_size"),
+                  ("_update_encoding_context", "method", "Decoder__update_encoding_context"),
+                  ("_decode_indexed", "method", "Decoder__decode_indexed"),
+                  ("_decode_literal", "method", "Decoder__decode_literal"),
+                  ("_decode_literal_no_index", "method", "Decoder__decode_literal_no_index"),
+                  ("_decode_literal_index", "method", "Decoder__decode_literal_index"),
+                  ("decode", "method", "Decoder_decode")],
+                 "GDecoder.v", [("hpack._unicode_if_needed", unicode_if_needed, reg_unicode)], imp2)
+    object_class("Encoder",
+                 [("header_table_size", "getter", "Encoder_header_table_size"),
+                  ("header_table_size", "setter", "Encoder_set_header_table_size"),
+                  ("_encode_indexed", "method", "Encoder__encode_indexed"),
+                  ("_encode_literal", "method", "Encoder__encode_literal"),
+                  ("_encode_indexed_literal", "method", "Encoder__encode_indexed_literal"),
+                  ("_encode_table_size_change", "method", "Encoder__encode_table_size_change"),
+                  ("add", "method", "Encoder_add")],
+                 "GEncoder.v", [], imp2)
 
     write_if_changed(os.path.join(out, "status.json"), json.dumps(status, indent=1, sort_keys=True) + "\n")
     bad_ = {k: v for k, v in status.items() if v != "translated"}
